@@ -5,9 +5,9 @@ HERE = os.path.dirname(os.path.abspath(__file__))
 COMMON = os.path.join(os.path.dirname(HERE), "common")
 
 ASSUMPTIONS = [
-    "directory model (E4 ghost `Dir`, one value per class of files): the listing functions RollingLogger::get_log_files (stub here; its "
-    "real body is proved in unit `listing` to list exactly the selected read_dir entries, each once, sorted - the identification of `Dir.files` "
-    "with those entries is not proved), misc_helpers::get_files and misc_helpers::search_files (stubs) return, when Ok, exactly the files of their class, each once, sorted "
+    "directory model (E4 ghost `Dir`, one value per class of files): the listing functions RollingLogger::get_log_files, misc_helpers::get_files "
+    "and misc_helpers::search_files (stubs here; their real bodies are proved in unit `listing` to list exactly the selected read_dir entries, each "
+    "once, sorted - the identification of `Dir.files` with those entries is not proved) return, when Ok, exactly the files of their class, each once, sorted "
     "by Ord for PathBuf; nothing else (other processes, other threads using the same logger) creates files of that class; archive and "
     "dump names embed the creation time (fixed-width date, then nanoseconds) so that path order is age order",
     "POSIX file operations (E9 stubs around std::fs::remove_file / rename / Path::metadata): remove_file Ok removes exactly that file, "
